@@ -100,7 +100,7 @@ let top_lfid (d : T.decoder) : z = match d.T.d_lfid with [] -> Z0 | x :: _ -> x
 let pos_s (d : T.decoder) = string_of_int (int_of_n d.T.d_pos)
 let b01 b = if b then "1" else "0"
 
-let enc_out (r : T.encoder T.res) : string = res_line r (fun e -> hex_of_bytes e.T.e_out)
+let enc_out (r : T.encoder T.res) : string = res_line r (fun e -> hex_of_bytes (T.e_out e))
 
 let handle toks =
   match toks with
@@ -123,7 +123,7 @@ let handle toks =
        | T.Ok e ->
          let e = (match e.T.e_lfid with [] -> e | _ :: t -> { e with T.e_lfid = z_of_shex last :: t }) in
          res_line (T.write_field_header (n_of_int (int_of_string ty)) (z_of_shex id) e)
-           (fun e2 -> hex_of_bytes e2.T.e_out ^ " " ^ shex_of_z (match e2.T.e_lfid with [] -> Z0 | x :: _ -> x))
+           (fun e2 -> hex_of_bytes (T.e_out e2) ^ " " ^ shex_of_z (match e2.T.e_lfid with [] -> Z0 | x :: _ -> x))
        | r -> enc_out r)
   | ["wlist"; ty; c] -> enc_out (T.write_list_begin (n_of_int (int_of_string ty)) (z_of_shex c) T.encoder_init)
   | ["wmap"; kt; vt; c] ->
